@@ -907,4 +907,13 @@ theorem C15_hypotheses_satisfiable :
     | error e => simp [hg] at h
     | ok r => exact ⟨r.1, r.2, rfl⟩
 
+
+/-- C15 on what the code really does: the NumPy decisions recorded in `generate_scenario` for each of
+the repository's nine generated benchmarks (parameters and streams regenerated on every run) replay
+through the model generator in the kernel — no decision left over, all fifteen postconditions hold,
+and the model's scenario *is* the scenario the repository's generator returned -/
+theorem C15_benchmarks_replay :
+    ∀ r ∈ Generated.gen_benchmark_runs, ∃ sc s', generate r.1 r.2 = .ok (sc, s') :=
+  Generated.gen_benchmark_runs_return
+
 end NASim.Gen
